@@ -123,10 +123,13 @@ fn classify_err(base: &Path, e: &ignore::Error) -> Seen {
 }
 
 fn builder(base: &Path, tree: &TreeSpec, cfg: &WalkCfg) -> WalkBuilder {
+    // "-" stands for standard input: a root that is reported as an entry of its own and is
+    // never opened or examined by the walker
+    let rp = |r: &String| if r == "-" { PathBuf::from("-") } else { base.join(r) };
     let mut roots = tree.roots.iter();
-    let mut b = WalkBuilder::new(base.join(roots.next().unwrap()));
+    let mut b = WalkBuilder::new(rp(roots.next().unwrap()));
     for r in roots {
-        b.add(base.join(r));
+        b.add(rp(r));
     }
     b.standard_filters(false);
     b.hidden(cfg.hidden);
@@ -305,6 +308,12 @@ fn gen_case_c07(sub: u64, thorough: bool) -> Case {
         let at = rng.below(tree.roots.len() + 1);
         tree.roots.insert(at, "zx".into());
         cfg.same_file_system = true;
+    }
+    if rng.chance(1, 10) {
+        // standard input among the roots (with or without same_file_system)
+        let at = rng.below(tree.roots.len() + 1);
+        tree.roots.insert(at, "-".into());
+        cfg.same_file_system = cfg.same_file_system || rng.chance(1, 2);
     }
     let n_expected = tree.nodes.len() + tree.roots.len();
     let mut visitor = VisitorScript::default();
